@@ -231,6 +231,32 @@ def main():
                 rows.append({"out": o + " {" + ",".join("%s=%d" % kv for kv in single.items()) + "}", "syms": sym_sources(ann),
                              "variadic": ann.index_variadic is not None, "rank": len(dims)})
             res = {"rows": rows}
+        elif req["mode"] == "check_shape":
+            # the METHOD _check_shape itself on explicit inputs (for the interpretation of the term generated from its source)
+            import numpy as np
+            from jaxtyping import _storage as stg, AnnotationError
+            rows = []
+            for c in req["cases"]:
+                b, ann = build("Float", np.ndarray, c["dim"])
+                if b != "ok":
+                    rows.append({"out": b}); continue
+                single, args = dict(c["single"]), dict(c["args"])
+                variadic = {k: (bool(v[0]), tuple(v[1])) for k, v in c["variadic"].items()}
+                args["boom"] = boom
+                stg._treepath_storage.value = c.get("label")
+                try:
+                    r = ann._check_shape(np.zeros(tuple(c["shape"]), "float32"), single, variadic, args)
+                    o = "ret:" + ("" if r == "" else "msg")
+                except AnnotationError:
+                    o = "raise:AnnotationError"
+                except Exception:
+                    o = "raise:Exception"
+                except BaseException:
+                    o = "raise:BaseException"
+                finally:
+                    stg._treepath_storage.value = None
+                rows.append({"out": o + " " + show_memo((single, variadic, {}, {})), "syms": sym_sources(ann)})
+            res = {"rows": rows}
         elif req["mode"] == "sessions":
             REUSE[0] = bool(req.get("reuse"))
             cats = sorted({st.get("cat", "Float") for se in req["sessions"] for st in se["steps"]})
